@@ -330,6 +330,10 @@ class Lexer:
                     "Unclosed tag: <%%%s>" % self.tag[-1].keyword,
                     **self.exception_kwargs,
                 )
+            if match.end() == match.start():
+                # empty body: match_reg() stepped over the "<" of the
+                # closing tag to guarantee progress; step back onto it
+                self.match_position = match.end()
             self.append_node(parsetree.Text, match.group(1))
             return self.match_tag_end()
         return True
@@ -398,6 +402,15 @@ class Lexer:
 
         if match:
             text = match.group(1)
+            if (
+                not text
+                and match.end() == match.start()
+                and match.end() < self.textlength
+            ):
+                # zero-width stop at a "%", "##" or "</%" that no other
+                # matcher consumed: match_reg() skipped one character to
+                # guarantee progress; that character is literal text
+                text = self.text[match.end()]
             if text:
                 self.append_node(parsetree.Text, text)
             return True
